@@ -192,6 +192,8 @@ var uriSets = [][]string{
 	{"/index.php", "/api/v2/sync?id=7", "/static/js/app.min.js"},
 	// commas that separate nothing
 	{"/feed,rss", "/a,b/c"},
+	// the root alone
+	{"/"},
 }
 
 var headerSets = [][]string{
@@ -259,7 +261,10 @@ func pathVariants(cfg Cfg) []pathVar {
 	var out []pathVar
 	for i, u := range cfg.Uris {
 		out = append(out, pathVar{fmt.Sprintf("in%d", i), u})
-		p := u[:len(u)-2]
+		p := "/not" + u // a URI too short to have a proper prefix: another path instead
+		if len(u) > 2 {
+			p = u[:len(u)-2]
+		}
 		if j := strings.IndexByte(u, '?'); j > 0 {
 			p = u[:j] // the path without its query
 		}
